@@ -170,7 +170,8 @@ func baseSet(name string, replicas int32, image string) *apps.StatefulSet {
 				Spec: v1.PodSpec{Containers: []v1.Container{{Name: "c", Image: image,
 					VolumeMounts: []v1.VolumeMount{{Name: "data", MountPath: "/data"}}}}},
 			},
-			VolumeClaimTemplates: []v1.PersistentVolumeClaim{{ObjectMeta: metav1.ObjectMeta{Name: "data"}}},
+			// the claim template carries labels of its own: getPersistentVolumeClaims adds the selector's labels to (a copy of) that map
+			VolumeClaimTemplates: []v1.PersistentVolumeClaim{{ObjectMeta: metav1.ObjectMeta{Name: "data", Labels: map[string]string{"tier": "data"}}}},
 		},
 	}
 }
@@ -462,6 +463,9 @@ func genRcCase(rng *rand.Rand) *rcCase {
 	}
 	// slots
 	nslots := weighted(rng, 30, 30, 20, 12, 8)
+	if rng.Intn(80) == 0 { // a long slot list (more than 64, more than 100 entries)
+		nslots = pick(rng, 65, 66, 70, 101, 130)
+	}
 	seen := map[int]bool{}
 	for i := 0; i < nslots; i++ {
 		var s int
